@@ -208,3 +208,20 @@ Definition frames_needed (cs : costs) (lim : nat) (k : rkind) (d : nat) : nat :=
 Record xcase := { xc_parent : list (option nat) }.
 Definition run_extends (x : xcase) : option exn :=
   match base_of (xc_parent x) 0 with Ok _ => None | Err e => Some e | OutOfFuel => Some EOtherForeign end.
+
+(* ---- the Python stack.  A run that needs more frames than the interpreter provides overflows.  BoundTemplate.render /
+   render_async catch the RecursionError once the stack has unwound and hand a ContextDepthError to Environment.error;
+   Environment.from_string converts an overflow that happens while a partial is being parsed deep inside a render.
+   convert = false is the behaviour before that repair (the RecursionError escaped). ---- *)
+Definition overflow_exn (convert : bool) : exn := if convert then EContextDepth else ERecursionError.
+
+(* strict-mode outcome of rendering a template that includes / renders itself from inside d nested blocks, on a stack of
+   [stack] frames *)
+Definition self_outcome (convert : bool) (stack lim : nat) (cs : costs) (k : rkind) (d : nat) : tobs :=
+  if Nat.ltb stack (frames_needed cs lim k d) then TErr (overflow_exn convert)
+  else let ld := self_family k d 1 in
+       match render_template false lim cs ld (fuel_bound lim ld) 0 with
+       | Some o => match raised o with Some e => TErr e | None => TOk (texts o) (peak o) end
+       | None => TFuel
+       end.
+Definition self_outcome_old := self_outcome false.
